@@ -63,13 +63,15 @@ def parseQuote (t : List Char) : R (List Char × Nat) :=
   | none => throw .unclosedQuote
 
 /-- optional sign then at least one digit: `-?\d+`; returns value, matched length -/
-def matchInt (t : List Char) : Option (Int × Nat) :=
-  let (neg, r) := match t with | '-' :: r => (true, r) | _ => (false, t)
+def matchDigits (neg : Bool) (r : List Char) : Option (Int × Nat) :=
   let ds := r.takeWhile isDigit
   if ds.isEmpty then none
-  else
-    let v : Int := digitsToNat ds
-    some (if neg then -v else v, ds.length + (if neg then 1 else 0))
+  else some (if neg then -(digitsToNat ds : Int) else (digitsToNat ds : Int), ds.length + (if neg then 1 else 0))
+
+def matchInt (t : List Char) : Option (Int × Nat) :=
+  match t with
+  | '-' :: r => matchDigits true r
+  | _ => matchDigits false t
 
 /-- `re.match(r"((-?\d+)\.\.(-?\d+)\])", text)` -/
 def matchInterval (t : List Char) : Option (Int × Int × Nat) :=
